@@ -9,6 +9,7 @@ import (
 	"net"
 	"net/url"
 	"strings"
+	"sync"
 	"time"
 
 	"github.com/saucelabs/forwarder"
@@ -398,6 +399,9 @@ func main() {
 		r := root.Sub(uint64(ci))
 		c := setup(run, r, ci)
 		runConf(run, r, c, base)
+		if run.Want(base + 900) {
+			concurrentRoutes(run, c, base+900)
+		}
 		c.close()
 	}
 	run.Floor("routes_checked", int64(nConf*6))
@@ -407,6 +411,7 @@ func main() {
 	run.Floor("via_socks5", 15)
 	run.Floor("direct_routes", 100)
 	run.Floor("dead_hop_checked", 10)
+	run.Floor("concurrent_routes_checked", int64(nConf*6))
 	wiring.Run(run, "C05")
 	run.Finish()
 }
@@ -438,6 +443,89 @@ func runConf(run *lib.Run, r *lib.RNG, c *conf, base int) {
 			}
 			c.oneRoute(run, r, idx, t, kind)
 		}
+	}
+}
+
+// concurrentRoutes: the routable targets of the configuration are requested at the same time, each
+// on its own client connection, twice. The routing tables, the connect-to rules and the dialers
+// are shared by all connections of an instance; every request must still be answered by the one
+// peer the routing model names for it.
+func concurrentRoutes(run *lib.Run, c *conf, idx int) {
+	w := c.w
+	run.Case(idx, c.sig()+"|concurrent-routes", nil)
+	type job struct {
+		t        target
+		kind     string
+		hop      string
+		wantPeer string
+	}
+	var jobs []job
+	for _, t := range []target{{"o1.test", "80"}, {"o2.test", "80"}, {"o1.test", "8080"}, {"direct.corp", "80"}, {"127.0.0.2", w.o1.Port()}, {"127.0.0.3", w.o2.Port()}} {
+		hop := c.expectedHop(t.host)
+		var dialAddr string
+		switch hop {
+		case "direct":
+			dialAddr = net.JoinHostPort(t.host, t.port)
+		case "A":
+			dialAddr = w.a.Addr
+		case "A2":
+			dialAddr = w.a2.Addr
+		case "B":
+			dialAddr = w.b.Addr
+		case "S":
+			dialAddr = w.s.Addr
+		default:
+			continue
+		}
+		wantPeer := w.owner(refConnectTo(c.rules, strings.ToLower(dialAddr)))
+		if wantPeer == "" {
+			continue
+		}
+		for _, kind := range []string{"http", "connect"} {
+			jobs = append(jobs, job{t, kind, hop, wantPeer})
+		}
+	}
+	var wg sync.WaitGroup
+	for round := 0; round < 2; round++ {
+		for ji, j := range jobs {
+			wg.Add(1)
+			go func(ji int, j job) {
+				defer wg.Done()
+				id := fmt.Sprintf("k%dc%dr%d", c.idx, ji, round)
+				hostport := net.JoinHostPort(j.t.host, j.t.port)
+				wit := map[string]any{"config": c.sig(), "pac": c.pac, "direct_domains": c.direct, "target": hostport, "kind": j.kind + " (all targets at once)", "expected_hop": j.hop, "expected_receiver": j.wantPeer}
+				st, err := lib.Dial(c.p.Addr)
+				if err != nil {
+					return
+				}
+				defer st.Close()
+				var res *lib.Msg
+				var pst lib.PStatus
+				if j.kind == "http" {
+					fmt.Fprintf(st.C, "GET http://%s/r/%s HTTP/1.1\r\nHost: %s\r\nX-Vid: %s\r\n\r\n", hostport, id, hostport, id)
+					res, pst, _ = st.ReadResponse("GET", 20*time.Second)
+				} else {
+					fmt.Fprintf(st.C, "CONNECT %s HTTP/1.1\r\nHost: %s\r\n\r\n", hostport, hostport)
+					res, pst, _ = st.ReadResponse("CONNECT", 20*time.Second)
+					if pst == lib.POK && res.Status == 200 {
+						fmt.Fprintf(st.C, "GET /r/%s HTTP/1.1\r\nHost: %s\r\nX-Vid: %s\r\n\r\n", id, hostport, id)
+						res, pst, _ = st.ReadResponse("GET", 20*time.Second)
+					}
+				}
+				if pst != lib.POK || res.Status != 200 || res.Get1("X-Vid") != id {
+					run.Violation("concurrent-route-failed", fmt.Sprintf("%s for %s was not served while the other targets were requested at the same time: %v", j.kind, hostport, res), idx, wit)
+					return
+				}
+				// a plain request is answered by the hop itself (an HTTP proxy); through a tunnel or a
+				// SOCKS5 proxy the far end answers, which identifies the hop only when the hop is the origin
+				if ((j.kind == "http" && j.hop != "S") || j.hop == "direct") && res.Get1("X-Peer") != j.wantPeer {
+					run.Violation("concurrent-route-wrong-receiver", fmt.Sprintf("%s for %s was answered by %q, the routing model names %q", j.kind, hostport, res.Get1("X-Peer"), j.wantPeer), idx, wit)
+					return
+				}
+				run.Count("concurrent_routes_checked", 1)
+			}(ji, j)
+		}
+		wg.Wait()
 	}
 }
 
